@@ -42,15 +42,21 @@ pub fn load() -> Vec<Entry> {
    }
 }
 
-fn runs_before_failure(case: &Case) -> usize {
-   case.actors.iter().map(|a| a.ops.iter().filter(|o| matches!(o, Op::Run { .. } | Op::RunTimeout { .. })).count()).max().unwrap_or(0)
+/// number of evaluations (run / run_timeout) the violating actor had started when the violating
+/// snapshot was taken, that snapshot's own call included
+fn runs_up_to_failure(case: &Case, v: &Violation) -> usize {
+   let is_run = |o: &Op| matches!(o, Op::Run { .. } | Op::RunTimeout { .. });
+   match (v.actor, v.op) {
+      (Some(a), Some(op)) if a < case.actors.len() => case.actors[a].ops.iter().take(op + 1).filter(|o| is_run(o)).count(),
+      _ => case.actors.iter().map(|a| a.ops.iter().filter(|o| is_run(o)).count()).max().unwrap_or(0),
+   }
 }
 
-fn trigger_holds(trigger: &str, case: &Case) -> bool {
+fn trigger_holds(trigger: &str, case: &Case, v: &Violation) -> bool {
    match trigger {
       "any" => true,
-      // the program value is run at least twice (re-run of kept index state)
-      "second-run" => runs_before_failure(case) >= 2,
+      // the violating snapshot belongs to (at least) the second evaluation of that program value
+      "second-run" => runs_up_to_failure(case, v) >= 2,
       _ => false,
    }
 }
@@ -60,7 +66,7 @@ pub fn matching<'a>(entries: &'a [Entry], property: &str, case: &Case, v: &Viola
       e.status == "open"
          && e.property == property
          && v.class.starts_with(&e.class)
-         && trigger_holds(&e.trigger, case)
+         && trigger_holds(&e.trigger, case, v)
          && (e.sites.is_empty()
             || case.actors.iter().any(|a| {
                e.sites.get(&a.program).map_or(false, |rels| !v.rels.is_empty() && v.rels.iter().all(|r| rels.contains(r)))
